@@ -564,6 +564,7 @@ func (l *commitLog) Truncate(offset int64) error {
 		if err := l.segments[i].Delete(); err != nil {
 			return err
 		}
+		crashPoint("truncate:later-segment-deleted")
 		deleted++
 	}
 
@@ -604,6 +605,7 @@ func (l *commitLog) Truncate(offset int64) error {
 				if err := newSegment.WriteMessageSet(ms, []*entry{e}); err != nil {
 					return err
 				}
+				crashPoint("truncate:rewriting")
 			} else {
 				break
 			}
@@ -611,6 +613,7 @@ func (l *commitLog) Truncate(offset int64) error {
 		if err = newSegment.Replace(seg); err != nil {
 			return err
 		}
+		crashPoint("truncate:replaced")
 		segments[idx] = newSegment
 	}
 	activeSegment := segments[len(segments)-1]
@@ -700,6 +703,7 @@ func (l *commitLog) split(oldActiveSegment *segment) error {
 	if err != nil {
 		return err
 	}
+	crashPoint("roll:segment-created")
 	// Do a CAS on the active segment to ensure no other threads have replaced
 	// it already. If this fails, it means another thread has already replaced
 	// it, so delete the new segment and return ErrSegmentExists.
@@ -754,6 +758,7 @@ func (l *commitLog) Clean() error {
 	if err != nil {
 		return err
 	}
+	crashPoint("clean:files-done")
 	l.mu.Lock()
 	newSegments := l.segments
 	if len(newSegments) > len(oldSegments) {
